@@ -4,6 +4,7 @@ package main
 import (
 	"verif/harness/core"
 	_ "verif/harness/props/c18t"
+	_ "verif/harness/props/twins"
 )
 
 func main() { core.Main() }
